@@ -1715,6 +1715,68 @@ func ruleWR1(c *Ctx) *rule {
 	return r
 }
 
+// ---- PL1: the parser keeps every element it reads ----------------------------------------------------------------------------------
+
+func rulePL1(c *Ctx) *rule {
+	r := &rule{ID: "PL1", Engine: "E2+E3", Floor: 4,
+		Statement: "in the parser's token loops every append of a node built from the token at hand (a dependency, an output, an argument, a command) is conditioned, inside the loop, on nothing but tests of token types: no element is left out because of what its text is or of what was seen before",
+		Necessity: "a list that drops repeated or 'empty' entries while it is parsed no longer is the list that was written: `join(\"..\", \"..\", \"bin\")` becomes `join(\"..\", \"bin\")`, and the formatter then writes the shortened list back"}
+	n := 0
+	for _, f := range c.ModFuncs {
+		if shortPkg(fnPkgPath(f)) != "parser" {
+			continue
+		}
+		fi := c.info(f)
+		for _, b := range f.Blocks {
+			l := fi.innermostLoop(b)
+			if l == nil {
+				continue
+			}
+			for _, in := range b.Instrs {
+				call, ok := in.(*ssa.Call)
+				if !ok {
+					continue
+				}
+				if bi, isB := call.Call.Value.(*ssa.Builtin); !isB || bi.Name() != "append" || len(call.Call.Args) < 2 {
+					continue
+				}
+				vs := c.newSlicer()
+				vs.depth = 0
+				if !vs.run(call.Call.Args[1]).hasField("token.Token.Value") {
+					continue
+				}
+				n++
+				key := fmt.Sprintf("%s element append#%d", fname(f), n)
+				bad := ""
+				for _, g := range fi.expandGuards(fi.necessaryGuards(b)) {
+					if !l.body[g.e.from] {
+						continue
+					}
+					if _, _, isTT := tokenTypeTest(g.cond); isTT {
+						continue
+					}
+					if tc, isCall := g.cond.(*ssa.Call); isCall && strings.HasSuffix(calleeName(tc.Common()), "token.Token).Is") {
+						continue // a test of the token's type against a type that is a parameter here (a shared list parser)
+					}
+					if isRangeFuncProtocol(g.cond) || isErrCond(g.cond) || isLoopCond(fi, g) {
+						continue
+					}
+					bad = "the element is only kept under " + condText(g.cond) + " at " + c.bpos(g.e.from)
+				}
+				if bad == "" {
+					r.ok(key, c.ipos(call), "kept whenever a token of its kind is read")
+				} else {
+					r.bad(key, c.ipos(call), bad+": entries that were written are missing from the parsed list")
+				}
+			}
+		}
+	}
+	if n == 0 {
+		r.undecided("parser element appends", "-", "no append of a token-derived node inside a loop was found in the parser: lists are built in a way this rule does not model")
+	}
+	return r
+}
+
 func rulePR5(c *Ctx) *rule {
 	r := &rule{ID: "PR5", Engine: "E3", Floor: 1,
 		Statement: "in the lexer, parser, ast and token packages every bufio.Scanner has its Err() consulted (or no scanner is used at all: the pinned tree splits the input with strings functions)",
@@ -1830,7 +1892,7 @@ func rulePR4(c *Ctx) *rule {
 
 func ruleFM7(c *Ctx) *rule {
 	r := &rule{ID: "FM7", Engine: "E3", Floor: 1,
-		Statement: "outside the parser and ast packages nothing stores into, sorts, reverses or appends over the node list of a syntax tree (a slice loaded from ast.Tree.Nodes, through any alias)",
+		Statement: "outside the parser and ast packages nothing stores into, sorts, reverses or appends over the node list of a syntax tree or a list inside one of its nodes (a slice loaded from ast.Tree.Nodes, ast.Task.Dependencies / Outputs / Commands, ast.Function.Arguments, through any alias)",
 		Necessity: "the tree handed to file.New and the tree the formatter prints share one backing array: re-ordering the nodes while loading the spokfile moves statements away from their comments in what --fmt writes back"}
 	n := 0
 	for _, f := range c.ModFuncs {
@@ -1845,13 +1907,15 @@ func ruleFM7(c *Ctx) *rule {
 					continue
 				}
 				var nodes ssa.Value
+				// the node list of the tree and the lists inside its nodes (a Task value copied out of the tree shares them)
+				treeLists := map[string]bool{"ast.Tree.Nodes": true, "ast.Task.Dependencies": true, "ast.Task.Outputs": true, "ast.Task.Commands": true, "ast.Function.Arguments": true}
 				switch x := in.(type) {
 				case *ssa.Field:
-					if fieldKey(x) == "ast.Tree.Nodes" {
+					if treeLists[fieldKey(x)] {
 						nodes = x
 					}
 				case *ssa.UnOp:
-					if x.Op == token.MUL && fieldKey(x.X) == "ast.Tree.Nodes" {
+					if x.Op == token.MUL && treeLists[fieldKey(x.X)] {
 						nodes = x
 					}
 				}
@@ -1886,12 +1950,12 @@ func parseProperties() []*propertySpec {
 			Explanation: "Only the clauses of parse fidelity that are visible in the shape of the code are decided: KW1 (state graph + edge dominance) proves the task keyword is recognised as a whole word, so that names beginning with it stay names; PS1/PS2 prove a string literal's text is the token text minus the quotes and that Literal() hands the field out unchanged ('the same strings verbatim'); TL1/TL2 prove a token's text is the input between the cursor cells; PR4/FM6 prove lexer and parser work on the file as read; FM3/FM5 prove one tree node per statement and that no parsed comment is dropped; TK4 proves one command per command token. Equality between the written structure and the parse result for all layouts is NOT decided.",
 			NotCovered:  []string{"the lexer's cursor arithmetic for every layout (whitespace, CRLF line ends - commands keep a trailing \\r on CRLF input today, observed by a sub-agent, value-level), trailing commas, one-line bodies, non-ASCII letters", "that the parser puts each element into the right list"},
 			Assumptions: []string{"identifiers are letters and underscores (lexer.isValidIdent)"},
-			Rules:       []func(*Ctx) *rule{ruleKW1, rulePS1, rulePS2, ruleTL1, ruleTL2, rulePR4, ruleFM6, ruleFM3, ruleFM5, ruleTK4}},
+			Rules:       []func(*Ctx) *rule{ruleKW1, rulePL1, rulePS1, rulePS2, ruleTL1, ruleTL2, rulePR4, ruleFM6, ruleFM3, ruleFM5, ruleTK4}},
 		{ID: "C07", Title: "Formatting never changes what a spokfile does, and its output always parses",
 			Explanation: "Only the structural necessary conditions of the round trip are decided: KW1 proves the keyword is a whole word (a name starting with 'task' that the printer moves to the start of a line must still be a name); WR1 proves every printer of a compound node writes every field, and every element of every list field by a full forward range (or by the indices a length test pins down), unconditionally and unsorted; FM1 proves no top-level node prints as nothing and Tree.Write prints each node once in order; FM7 proves nobody outside parser/ast overwrites the tree (or the lists inside its nodes) between Parse and String; FX2 proves --fmt writes exactly Tree.String() of the parse result and only when parsing and loading succeeded; PS1/PS2 prove string text is token text minus quotes and Literal() returns the field; ST9 proves no spokfile text is used as a format string. That the printed text re-parses to an equal tree for every input is NOT decided.",
 			NotCovered:  []string{"re-lexing of the printed form for every input (quotes inside strings, trailing blanks of commands, CRLF): value-level", "equality of the re-parsed tree"},
 			Assumptions: []string{"the printed punctuation is what the existing ast tests pin"},
-			Rules:       []func(*Ctx) *rule{ruleKW1, ruleWR1, ruleFM1, ruleFM7, ruleFX2, rulePS1, rulePS2, ruleFM6, ruleST9}},
+			Rules:       []func(*Ctx) *rule{ruleKW1, ruleWR1, rulePL1, ruleFM1, ruleFM7, ruleFX2, rulePS1, rulePS2, ruleFM6, ruleST9}},
 		{ID: "C15", Title: "Formatting keeps every comment and every task's docstring",
 			Explanation: "FM1 proves by a may-be-empty analysis over the SSA form of every String() method of the node types the parser appends (Comment, Assign, Task) that no return path prints the empty string, and that Tree.Write prints every node once, in order; FM2 proves by edge dominance that a parsed comment becomes a docstring only under the guard that the very next token is the task keyword, is never carried over from another iteration, and that Task.String prints it before the keyword; FM3 proves by path enumeration that every way round the parse loop appends exactly one node.",
 			NotCovered:  []string{"preservation of the comment text itself and of order (value-level)", "comments inside task bodies (the lexer rejects them)"},
